@@ -249,9 +249,6 @@ class MultiGeoPoint(MultiShapeBase, PointLikeMixin, SimpleShapeMixin):
             ]
         }
 
-    def __hash__(self) -> int:
-        return hash(frozenset(hash(x) for x in self.geoshapes))
-
     def __repr__(self):
         pl = "s" if len(self.geoshapes) != 1 else ""
         return f'<MultiGeoPoint of {len(self.geoshapes)} point{pl}>'
